@@ -56,8 +56,39 @@ TEMPLATES = [
     "def g(pa: {A}, pb: {B}, pc: int) -> None: ...\ndef f() -> None:\n    g()\n    g(pz=1)\n",
     "x: Union[{A}, {B}, None] = None\ndef f() -> None:\n    if x is not None and not isinstance(x, {B}):\n        reveal_type(x)\n    reveal_type(x)\n",
     "def f(x: {A}, y: {B}) -> None:\n    v = [x, y, None]\n    reveal_type(v)\n    w = (x if c() else y) if c() else {LA}\n    reveal_type(w)\n",
+    # --- templates added to reach set-iteration sites that pyanalyze's own test-suite reaches and the corpus above did not (tools/ndplugin.py, tools/nd_sites_cmp.py)
+    "def f(x: str, y: object) -> None:\n    if x in {{'alpha', 'beta', 'gamma', 'delta', {LB}}}:\n        reveal_type(x)\n    if y not in {{'alpha', 'beta', {LA}}}:\n        pass\n    else:\n        reveal_type(y)\n",
+    "SS = {{'alpha', 'beta', 'gamma', 'delta', {LB}}}\nFS = frozenset({{'alpha', 'beta', {LA}}})\ndef f(y: object) -> None:\n    for e in SS:\n        reveal_type(e)\n    if y in FS:\n        reveal_type(y)\n    reveal_type([e2 for e2 in FS])\n    w: int = SS\n",
+    "def f(x: Union[Literal[{LA}], Literal[{LB}], list[{A}], None], y: Union[Literal[1], Literal['a'], tuple[int, int]]) -> None:\n    if x:\n        reveal_type(x)\n    if y:\n        reveal_type(y)\n    if (1, {LA}):\n        pass\n",
+    "U = TypeVar('U')\nV = TypeVar('V')\ndef g2(a: T, b: U, cc: V) -> dict[T, tuple[U, V]]: ...\ndef f() -> None:\n    reveal_type(g2())\n    reveal_type(g2({LA}))\n    reveal_type(g2({LA}, {LB}, zz=1))\n",
+    "TB = TypeVar('TB', bound=int)\nU = TypeVar('U', str, bytes)\ndef g3(a: TB, b: U, cc: T) -> tuple[TB, U, T]: ...\ndef f(x: {A}, y: {B}) -> None:\n    reveal_type(g3(x, y, None))\n    reveal_type(g3('s', 1.0, 1))\n    reveal_type(g3(b=1, a='s', cc=2))\n",
+    "def g4(a: Union[list[T], set[T], dict[T, T]]) -> T: ...\ndef f(x: Union[list[{A}], set[{B}]], y: Union[list[{A}], dict[{B}, {B}], set[None]]) -> None:\n    reveal_type(g4(x))\n    reveal_type(g4(y))\n    reveal_type(g4([1, 'a']))\n    g4(1)\n",
+    "def f(x: Union[{A}, {B}, None]) -> None:\n    v = None\n    for i in range(3):\n        if c():\n            v = x\n        elif c():\n            v = {LA}\n        else:\n            w = v\n            reveal_type(w)\n        if isinstance(v, {A}):\n            reveal_type(v)\n    reveal_type(v)\n    try:\n        v = {LB}\n        if c():\n            v = {LC}\n    finally:\n        reveal_type(v)\n    while c():\n        if v is None:\n            v = x\n            continue\n        reveal_type(v)\n",
+    "def f(x: {A}) -> None:\n    ua = 1\n    ua = 2\n    if c():\n        ua = 3\n    ub = \"{{x}} and {{ua}} or {{ub}}\"\n    for uc in range(3):\n        uc = 4\n    ud = ue = 5\n",
+    "import logging.config\ndef f(x: {A}) -> None:\n    logging.config.dictConfig(x)\n    logging.config.dictConfig({{'version': 1, 'root': {LA}}})\n",
+    "def f(x: Union[{A}, {B}, None], y: object) -> None:\n    if isinstance(x, ({A}, {B}, bytes, float)):\n        reveal_type(x)\n    if isinstance(y, ({A}, {B}, bool)) and y in ({LA}, {LB}, {LC}):\n        reveal_type(y)\n    if type(y) in {{int, str, bytes}}:\n        reveal_type(y)\n",
+    "class Q1:\n    qa: int = 1\nclass Q2(Q1):\n    qb: str = ''\nclass Q3(Q2, Generic[T]):\n    def m(self, t: T) -> None:\n        print(self.qa, self.qb, self.qc, self.qd)\n        self.qe = t\ndef f(q: Q3[{A}], r: float, i: int) -> None:\n    q.m({LB})\n    reveal_type(q.qe)\n    r = i\n    i = r\n    cpx: complex = i\n    use(i)\n    use(r)\ndef use(p: P3) -> None: ...\n",
+    # --- order-sensitive programs: the result order is derived from a set / a cache inside pyanalyze rather than from the declared union
+    "def f(x: object, y: object) -> None:\n    if isinstance(x, {A}) or isinstance(x, {B}) or x is None:\n        reveal_type(x)\n    if isinstance(y, {B}) or y == {LA} or isinstance(y, {A}):\n        reveal_type(y)\n    if not (isinstance(x, {A}) and isinstance(y, {A})):\n        reveal_type(x)\n",
+    "def f() -> None:\n    try:\n        v = {LA}\n        v = {LB}\n        v = 2.0\n        w = {LC}\n        w = None\n    except Exception:\n        pass\n    reveal_type(v)\n    reveal_type(w)\n    with open('x') as fh:\n        u = {LA}\n        u = {LB}\n        u = b''\n    reveal_type(u)\n",
+    "def f(a: list[Union[{A}, {B}]], d: dict[str, Union[{A}, {B}]], t: tuple[Union[{A}, {B}, None], ...]) -> None:\n    reveal_type(iter(a))\n    reveal_type(reversed(a))\n    reveal_type(sorted(d))\n    reveal_type(max(a))\n    reveal_type(dict(d))\n    reveal_type(list(t))\n    reveal_type(enumerate(t))\n    for e in t:\n        reveal_type(e)\n",
 ]
 VARIANTS = [dict(A="int", B="str", LA="1", LB="'b'", LC="'c'"), dict(A="bytes", B="float", LA="'a'", LB="2", LC="'z'")]
+# the first variant with the two types exchanged: the same unions spelled in the other order (appended after the main block so that indices stay stable)
+SWAPPED = dict(A="str", B="int", LA="'b'", LB="1", LC="'c'")
+NV = len(VARIANTS)
+
+
+def tid(pi):
+    """template number of corpus program pi"""
+    n = NV * len(TEMPLATES)
+    return pi // NV if pi < n else pi - n
+
+
+def pidx(t, v):
+    """corpus index of template t (negative = from the end) in variant v (0, 1, or 's' = swapped)"""
+    t = t % len(TEMPLATES)
+    return NV * len(TEMPLATES) + t if v == "s" else NV * t + v
 
 
 def corpus(tier):
@@ -66,18 +97,20 @@ def corpus(tier):
     for t in ts:
         for v in VARIANTS:
             out.append(PRE + t.format(**v))
+    for t in ts:
+        out.append(PRE + t.format(**SWAPPED))
     return out
 
 
 def bounds(tier):
     return {"corpus": len(corpus(tier)), "schedule_deviations": "1 site" if tier == "quick" else "1 occurrence, 2 sites", "history_depth": 2 if tier == "quick" else 3,
-            "history_alphabet": 8 if tier == "quick" else 12, "seeds": 8 if tier == "quick" else 32}
+            "history_alphabet": 12 if tier == "quick" else 16, "seeds": 8 if tier == "quick" else 32}
 
 
 def units(tier):
     n = len(corpus(tier))
     u = [("sched", tier, i) for i in range(n)]
-    k = 8 if tier == "quick" else 12
+    k = 12 if tier == "quick" else 16
     u += [("hist", tier, i) for i in range(k)]
     u += [("seeds", tier, 0)]
     return u
@@ -123,7 +156,7 @@ def _sched(res, tier, pi, only=None):
     res.validated += 1
     case0 = {"mode": "sched", "prog": pi, "order": pi * 100000}
     if again != base:
-        res.violation({"kind": "identity-schedule-not-repeatable", "prog": str(pi % len(TEMPLATES) if False else pi // 2)}, dict(case0, policy=None),
+        res.violation({"kind": "identity-schedule-not-repeatable", "prog": str(tid(pi))}, dict(case0, policy=None),
                       "two checks of the same program under the identity schedule differ: %s" % _diff(base, again))
         return
     res.extra["dynamic_choice_points"] += sum(sites.values())
@@ -206,14 +239,16 @@ def _in_child(fn):
     return val
 
 
-HIST_ALPHA = [16, 17, 0, 1, 32, 33, 10, 11, 8, 9, 24, 25]
+# history alphabet as (template, variant): colliding pairs first (same template in two variants; the swapped variant spells the same unions in the other order)
+HIST_ALPHA = [pidx(-1, 0), pidx(-1, "s"), pidx(8, 0), pidx(8, 1), pidx(0, 0), pidx(0, "s"), pidx(16, 0), pidx(16, 1), pidx(5, 0), pidx(5, "s"), pidx(-3, 0), pidx(-3, "s"),
+              pidx(4, 0), pidx(4, 1), pidx(12, 0), pidx(12, 1)]
 
 
 def _hist(res, tier, first, only=None):
     _install()
     import pa.run      # import pyanalyze in the parent; no check is run here
     progs = corpus(tier)
-    k = 8 if tier == "quick" else 12
+    k = 12 if tier == "quick" else 16
     alpha = [a for a in HIST_ALPHA[:k] if a < len(progs)]
     depth = 2 if tier == "quick" else 3
 
@@ -245,7 +280,7 @@ def _hist(res, tier, first, only=None):
             res.validated += 1
             res.outcomes["hist:%s" % ("same" if got == fresh[p] else "differs")] += 1
             if got != fresh[p]:
-                res.violation({"kind": "history-dependent-output", "template": str(p // 2), "same_template_before": str(int(any(h // 2 == p // 2 and h != p for h in list(seq) + alpha[:alpha.index(p)])))},
+                res.violation({"kind": "history-dependent-output", "template": str(tid(p)), "same_template_before": str(int(any(tid(h) == tid(p) and h != p for h in list(seq) + alpha[:alpha.index(p)])))},
                               {"mode": "hist", "seq": list(seq), "prog": p, "order": 10 ** 8 + first * 10000 + si},
                               "in a process that first checked programs %s (one shared Checker) and then the alphabet up to it, program %d renders differently than in a fresh process:\n%s\n%s"
                               % (list(seq), p, progs[p][len(PRE):], _diff(fresh[p], got)))
@@ -296,7 +331,7 @@ def _seeds(res, tier, only=None):
             res.validated += 1
             res.outcomes["seeds:%s" % ("same" if a == b else "differs")] += 1
             if a != b:
-                res.violation({"kind": "seed-dependent-output", "template": str(pi // 2)}, {"mode": "seeds", "seed": s, "prog": pi, "order": 10 ** 9 + s * 100 + pi},
+                res.violation({"kind": "seed-dependent-output", "template": str(tid(pi))}, {"mode": "seeds", "seed": s, "prog": pi, "order": 10 ** 9 + s * 100 + pi},
                               "PYTHONHASHSEED=0 and PYTHONHASHSEED=%d render program %d differently:\n%s\n%s" % (s, pi, progs[pi][len(PRE):], _diff([tuple(x) for x in a], [tuple(x) for x in b])))
     # conformance of the instrumentation: the instrumented identity run equals the uninstrumented seed-0 run
     _install()
@@ -306,7 +341,7 @@ def _seeds(res, tier, only=None):
         got = [list(x) for x in render(check(src, checker=ck))]
         res.validated += 1
         if json.loads(json.dumps(got)) != outs[0][pi]:
-            res.violation({"kind": "INSTRUMENTATION-NOT-CONFORMANT", "template": str(pi // 2)}, {"mode": "seeds", "seed": 0, "prog": pi, "order": 10 ** 9 + pi},
+            res.violation({"kind": "INSTRUMENTATION-NOT-CONFORMANT", "template": str(tid(pi))}, {"mode": "seeds", "seed": 0, "prog": pi, "order": 10 ** 9 + pi},
                           "instrumented identity run differs from the uninstrumented run on program %d: %s" % (pi, _diff([tuple(x) for x in outs[0][pi]], [tuple(x) for x in got])))
     res.sample({"seeds": sorted(outs), "programs": len(progs)})
 
